@@ -47,6 +47,23 @@ impl<V> HashTable<ZobristHash, V> {
     }
 }
 
+#[cfg(inkayaku_verif)]
+pub mod verif_handle {
+    use inkayaku_board::constants::ZobristHash;
+
+    /// Test-only public handle to the private `HashTable<ZobristHash, u64>`.
+    pub struct TableHandle(super::HashTable<ZobristHash, u64>);
+
+    impl TableHandle {
+        pub fn new(capacity: usize) -> Self { Self(super::HashTable::new(capacity)) }
+        pub fn put(&mut self, key: ZobristHash, value: u64) { self.0.put(key, value); }
+        pub fn get(&self, key: ZobristHash) -> Option<u64> { self.0.get(key).copied() }
+        pub fn clear(&mut self) { self.0.clear(); }
+        pub fn len(&self) -> usize { self.0.len() }
+        pub fn load_factor(&self) -> f32 { self.0.load_factor() }
+    }
+}
+
 // #[cfg(test)]
 // mod test {
 //     use crate::inkayaku::table::HashTable;
